@@ -24,6 +24,7 @@ type Assign struct {
 	TopLevel bool   // statement is a direct child of the chunk (unconditional)
 	Guard    string // rendered condition of the innermost enclosing if, "" if none
 	InLoop   bool
+	Rhs      string // rendered right-hand side
 }
 
 // Script is a parsed script.
@@ -192,6 +193,9 @@ func (s *Script) walk(stmts []ast.Stmt, top bool, guard string, inLoop bool) {
 					continue
 				}
 				a := Assign{Table: tbl, Key: key.Value, Line: x.Line(), TopLevel: top && !s.sawReturn, Guard: guard, InLoop: inLoop}
+				if r != nil {
+					a.Rhs = exprString(r)
+				}
 				switch rv := r.(type) {
 				case *ast.NilExpr:
 					a.Nil = true
